@@ -580,7 +580,7 @@ func redactPipelineStage(stage interface{}, redactFieldNames bool, keyPath []str
 					continue
 				}
 			}
-			if name, ok := v.(string); ok && redactNamespaces && (k == "$unionWith" || k == "$out") {
+			if name, ok := v.(string); ok && redactNamespaces && (k == "$unionWith" || k == "$out" || k == "$merge") {
 				// short form of the stage: its argument is the bare collection name
 				if _, isStageDocument := opMeta.(*orderedmap.OrderedMap[string, any]); isStageDocument {
 					newMap.Set(redactedKey, HashName(name))
